@@ -469,11 +469,11 @@ def find_spans(s: bytes, words):
     return sorted(spans)
 
 
-def norm_headers(hfield):
+def norm_headers(hfield, lowered=(b"transfer-encoding", b"content-encoding")):
     out = []
     for k, v in parse_hdrs_out(hfield):
         kl = k.lower()
-        if kl in (b"transfer-encoding", b"content-encoding"):
+        if kl in lowered:
             v = v.lower()
         out.append((kl, v))
     return out
@@ -568,12 +568,128 @@ class C18:
                     g.add("variant", mk(apply_case(s, spans, mask)))
             groups.append(g)
             k += 1
+        # the whole chain: a response is parsed (fixed length or chunked, the coding / type fields in the header block
+        # or in the trailer) and what the parser hands over is decoded, as content and as text
+        import gzip as _gzip, zlib as _zlib
+        NAMES = [b"content-length", b"transfer-encoding", b"trailer", b"content-encoding", b"content-type"]
+        TOKENS = [b"chunked", b"gzip", b"deflate", b"text", b"charset"]
+        for _ in range(n // 4):
+            text = rng.pick([b"hello, world", "caf\u00e9 \u2603".encode(), b"abc" * 20, b"", b"text charset gzip deflate chunked"])
+            coding = rng.pick([b"gzip", b"deflate", b"identity", None, b"gzip, deflate", b"x-unknown"])
+            body = text
+            if coding == b"gzip":
+                body = _gzip.compress(text, mtime=0)
+            elif coding == b"deflate":
+                body = _zlib.compress(text)
+            elif coding == b"gzip, deflate":
+                body = _zlib.compress(_gzip.compress(text, mtime=0))
+            ctype = rng.pick([b"text/plain; charset=utf-8", b"text/html;charset=UTF-8", b"text/plain", b"application/json; charset=utf-8",
+                              b"text/plain; charset=us-ascii", b"text/plain; charset=iso-8859-1", None])
+            fields = []
+            if coding is not None:
+                fields.append((b"Content-Encoding", coding))
+            if ctype is not None:
+                fields.append((b"Content-Type", ctype))
+            chunked = rng.chance(3, 5)
+            in_trailer = []
+            if chunked and fields and rng.chance(1, 2):
+                # move (or repeat) some of them in the trailer
+                for f in list(fields):
+                    c = rng.below(3)
+                    if c == 0:
+                        fields.remove(f)
+                        in_trailer.append(f)
+                    elif c == 1:
+                        in_trailer.append(f)
+            if chunked and rng.chance(1, 3):
+                # framing fields spelled canonically in the trailer (the parser keeps them out of the header list)
+                in_trailer.insert(rng.below(len(in_trailer) + 1),
+                                  rng.pick([(b"Content-Length", b"999"), (b"Transfer-Encoding", b"foobar"), (b"Transfer-Encoding", b"chunked"),
+                                            (b"Trailer", b"X-Later"), (b"Content-Length", b"0")]))
+            hs = [(b"Server", b"x")] + fields
+            if rng.chance(1, 3):
+                hs.append((b"X-Text", b"gzip chunked"))
+            rng.shuffle(hs)
+            head = b"HTTP/1.1 200 OK\r\n"
+            if chunked:
+                hs.append((b"Transfer-Encoding", b"chunked"))
+                if in_trailer and rng.chance(1, 2):
+                    hs.append((b"Trailer", b", ".join(a for a, _ in in_trailer)))
+                head += b"".join(a + b": " + b + CRLF for a, b in hs) + CRLF
+                payload = b""
+                pos = 0
+                while pos < len(body):
+                    m = 1 + rng.below(max(1, len(body)))
+                    piece = body[pos:pos + m]
+                    payload += b"%x" % len(piece) + CRLF + piece + CRLF
+                    pos += m
+                payload += b"0" + CRLF
+                tail = b"".join(a + b": " + b + CRLF for a, b in in_trailer) + CRLF
+            else:
+                hs.append((b"Content-Length", b"%d" % len(body)))
+                head += b"".join(a + b": " + b + CRLF for a, b in hs) + CRLF
+                payload = body
+                tail = b""
+            s = head + payload + tail
+            spans = []
+            for lo, hi in ((0, len(head)), (len(head) + len(payload), len(s))):
+                region = s[lo:hi]
+                for a, b in find_spans(region, NAMES):
+                    if a == 0 or region[a - 2:a] == CRLF:
+                        spans.append((lo + a, lo + b))
+                for a, b in find_spans(region, TOKENS):
+                    ls = region.rfind(CRLF, 0, a) + 2 if region.rfind(CRLF, 0, a) >= 0 else 0
+                    colon = region.find(b":", ls)
+                    if 0 <= colon < a and region[ls:colon].lower() in (b"content-encoding", b"transfer-encoding", b"content-type"):
+                        spans.append((lo + a, lo + b))      # inside the value of a field the tokens are read from
+            spans = sorted(set(spans))
+            nl = letter_count(s, spans)
+            if nl == 0:
+                continue
+            g = Group("c%d" % k, "resp-decode-case", {"stream": s.hex()})
+            mk2 = lambda x: gen.resp_op(tree, ov, None, gen.cut(x, [rng.randint(1, len(x) - 1)]) if rng.chance(1, 3) else [x], op="RESPDEC")
+            g.add("base", gen.resp_op(tree, ov, None, [s], op="RESPDEC"))
+            for _ in range(min(limit, 12)):
+                g.add("variant", mk2(apply_case(s, spans, rng.getrandbits(nl) | (1 << rng.below(nl)))))
+            groups.append(g)
+            k += 1
         return groups
 
     @staticmethod
     def oracle(group, res):
         fails = []
         b0 = strip_ann(res[group.tag(0)])
+        if group.kind == "resp-decode-case":
+            LOW = (b"transfer-encoding", b"content-encoding", b"content-type")
+            def parts(o):
+                ps = o.split(" || ")
+                first = ParseResult(ps[0])
+                txt = ps[1] if len(ps) > 1 else None
+                dec = ps[2] if len(ps) > 2 else None
+                if dec is not None and " | h=" in dec:
+                    a, h = dec.split(" | h=", 1)
+                    dec = (a, norm_headers(h, LOW))
+                return first, txt, dec
+            base, txt0, dec0 = parts(b0)
+            for i in range(1, len(group.members)):
+                r, txt, dec = parts(strip_ann(res[group.tag(i)]))
+                why = None
+                if (r.verdict, r.category, r.total) != (base.verdict, base.category, base.total):
+                    why = "verdict or boundary changes (%s %d vs %s %d)" % (r.verdict, r.total, base.verdict, base.total)
+                else:
+                    for f in base.fields:
+                        if f == "h":
+                            if norm_headers(r.fields.get("h", ""), LOW) != norm_headers(base.fields.get("h", ""), LOW):
+                                why = "header list changes beyond the spelling of names"
+                        elif r.fields.get(f) != base.fields.get(f):
+                            why = "field %s changes" % f
+                    if why is None and txt != txt0:
+                        why = "the text decoded from the parsed message changes"
+                    if why is None and dec != dec0:
+                        why = "the content decoded from the parsed message changes"
+                if why:
+                    fails.append(Failure(group, "case", "changing letter case: " + why, [0, i]))
+            return fails
         if group.kind in ("req-case", "resp-case"):
             base = ParseResult(b0)
             for i in range(1, len(group.members)):
